@@ -107,6 +107,17 @@ CHECKS["C18"] = dict(level="exploration", engine="sweep",
    note="Error messages are not compared (they legitimately differ), only variants; a driver that does not finish within 300 s is reported as a hang.",
    design="3/C18")
 
+CHECKS["C19"] = dict(level="exploration", engine="sweep",
+   technique="complete enumeration of the command-line option matrix through the real binary in fresh directories, libzstd as reference decoder",
+   text="The built ruzstd-cli binary is run in fresh directories under /verif/.work: level option {absent, 0, 1, 2, 3, 4, 5, 255, 256, 'x'} (long flag; short flag on two contents) x output path {explicit, defaulted} x 9/12 file contents (empty, 1 byte, text, one block -1/0/+1, incompressible 300 KB, RLE, binary with NULs and newlines; thorough adds 3 MB text, 1 MB skewed, exactly two blocks). Every produced .zst is decoded by libzstd and by the tool's decompress command with an explicit target and with the defaulted target run from another directory. Implemented levels and no level: exit 0 and a byte-identical restored file. Operations that cannot be carried out (unimplemented / unknown / unparsable levels, garbage or missing input): non-zero exit status, and no panic that leaves an output file behind.",
+   note="A clean error exit that leaves a partial file would be accepted; the property forbids the panic-plus-plausible-output combination and success statuses for failed operations.",
+   design="3/C19")
+CHECKS["C20"] = dict(level="exploration", engine="sweep",
+   technique="complete product of (source length, size estimate, dictionary size, content, reader) with owned randomness, in watchdog'ed worker processes",
+   text="create_raw_dict_from_source with fastrand seeded from VERIF_SEED (each case under two seeds; verdicts must agree): true source length every value 0..=300 and {1000, 2047, 2048, 2049, 4096, 10000; thorough +30000, 100000} x size estimate {0, 15, 16, 17, 31, 32, len/2, len, 2*len, 10^6, 2^32, 2^32+2048} x dictionary size {0, 1, 15, 16, 17, 64, 2047, 2048, 2049, 4096, 10^6} x content {constant, ramp, period 16, period 17, text} x reader {whole slice, 1 byte per read, 100 bytes per read}: 500k cases. Oracle: the call returns (300 s watchdog in a worker process with an 8 GiB address-space limit), does not panic, and output.len() <= dict_size.",
+   note="'Bounded time' is a watchdog, not a complexity proof: the builder's segment scoring is quadratic in the sample, so 4 GiB / 10^6 estimates are only combined with a few source lengths.",
+   design="3/C20")
+
 NOT_YET = {}
 
 def main():
